@@ -203,6 +203,16 @@ def check(ctx):
     cl = bw.func("Blockwise._cull")
     ok = any(unparse(kwarg(c, "output_blocks")) == "output_blocks" for c in calls(cl, "Blockwise"))
     ctx.ob("REACH.blockwise-cull.layer", cl, "Blockwise(..., output_blocks=output_blocks)", ok)
+    # the culled copy must carry over every other constructor field of the layer unchanged
+    init = bw.func("Blockwise.__init__")
+    for c in calls(cl, "Blockwise"):
+        bound = bind_call(c, ast.FunctionDef(name="__init__", args=ast.arguments(posonlyargs=[], args=init.args.args[1:], kwonlyargs=init.args.kwonlyargs, kw_defaults=[], defaults=[], vararg=None, kwarg=None), body=[], decorator_list=[]))
+        for p in [a.arg for a in init.args.args[1:]]:
+            if p == "output_blocks":
+                continue
+            got = unparse(bound.get(p)) if p in bound else None
+            ok = got == f"self.{p}"
+            ctx.ob("REACH.blockwise-cull.copy-field", c, f"Blockwise._cull forwards {p}=self.{p}", ok, "" if ok else (f"{p} is not forwarded: the culled layer falls back to the default" if got is None else f"{p}={got}"))
 
     # ---------------- HLG.cull
     hl = model.module(HLG)
@@ -256,6 +266,7 @@ VARIANTS = [
     (HLG, "        for layer_name in reversed(self._toposort_layers()):", "        for layer_name in self._toposort_layers():", "REACH.hlg-cull.order"),
     (HLG, "                    keys_set |= d\n", "                    pass\n", "REACH.hlg-cull.grow"),
     (BW, "            if key[0] == self.output:\n                output_blocks.add(key[1:])", "            if True:\n                output_blocks.add(key[1:])", "REACH.blockwise-cull.outputs"),
+    (BW, "            concatenate=self.concatenate,\n            new_axes=self.new_axes,\n            output_blocks=output_blocks,", "            new_axes=self.new_axes,\n            output_blocks=output_blocks,", "REACH.blockwise-cull.copy-field"),
 ]
 
 
